@@ -8,6 +8,7 @@ Local Open Scope N_scope.
 Section Inv.
   Variable hash : header -> bytes.
   Variable r0 g0 : N.       (* the client's revision number; the number of the header it was created with *)
+  Variable U : header -> Prop.   (* the headers that occur (the hash hypotheses of the theorems are relative to it) *)
   Notation idx_wf := (idx_wf hash r0).
   Notation wf_hdr := (wf_hdr r0).
   Notation key := (key hash).
@@ -26,7 +27,7 @@ Section Inv.
   Fixpoint DeadPath (ix : imap) (k : hkey) (D : list header) : Prop :=
     match D with
     | [] => snd k < g0 \/ two63 <= snd k
-    | d :: D' => key d = k /\ iget k ix = None /\ h_num d < two63 /\ DeadPath ix (pkey d) D'
+    | d :: D' => key d = k /\ iget k ix = None /\ (h_num d < two63 /\ U d) /\ DeadPath ix (pkey d) D'
     end.
 
   Record Inv (s : state) (L D : list header) : Prop := {
@@ -40,6 +41,7 @@ Section Inv.
     inv_rmain : forall a, Stored (idx s) a -> low (head s) L <= h_num a ->
                           rget (to_hash (h_root a), h_num a) (rmain s) = Some (key a);
     inv_low : forall a, Stored (idx s) a -> g0 <= h_num a;
+    inv_univ : forall a, Stored (idx s) a -> U a;
     inv_dead : DeadPath (idx s) (pkey (last L (head s))) D }.
 
   (** * Facts about [Main] *)
@@ -132,19 +134,19 @@ Section Inv.
   Lemma deadpath_mono ix ix' k D : (forall k', iget k' ix = None -> iget k' ix' = None) -> DeadPath ix k D -> DeadPath ix' k D.
   Proof.
     intro A. revert k; induction D as [|d D IH]; intros k H; [exact H|].
-    cbn in *. destruct H as [H1 [H2 [H3 H4]]]. repeat split; auto.
+    cbn in *. destruct H as [H1 [H2 [[H3 H5] H4]]]. repeat split; auto.
   Qed.
 
   (** nothing is stored under the parent key of a dead header, nor under the bottom key *)
   Lemma deadpath_parent_gone ix k D :
     (forall x n a, iget (x, n) ix = Some a -> g0 <= n < two63) ->
-    DeadPath ix k D -> iget k ix = None /\ forall d, In d D -> iget (pkey d) ix = None /\ h_num d < two63.
+    DeadPath ix k D -> iget k ix = None /\ forall d, In d D -> iget (pkey d) ix = None /\ h_num d < two63 /\ U d.
   Proof.
     intro R. revert k; induction D as [|d D IH]; intros k H.
     - cbn in H. split; [|intros d []].
       destruct (iget k ix) as [a|] eqn:E; [|reflexivity]. destruct k as [x n]. apply R in E. cbn in H. lia.
     - cbn in H. destruct H as [H1 [H2 [H3 H4]]]. split; [exact H2|].
-      destruct (IH _ H4) as [G1 G2]. intros d' [<-|I]; [split; assumption | apply G2; exact I].
+      destruct (IH _ H4) as [G1 G2]. intros d' [<-|I]; [split; [assumption | exact H3] | apply G2; exact I].
   Qed.
 
   Lemma deadpath_keys ix k D d : DeadPath ix k D -> In d D -> iget (key d) ix = None.
@@ -290,8 +292,8 @@ Section Inv.
         destruct (nth_anc (idel (key aL) (idx s)) (head s) i) as [a|] eqn:A; [|reflexivity]. exfalso.
         destruct (nth_anc_le _ _ n _ _ A E) as [b B].
         replace n with (S (n - 1)) in B by lia. rewrite nth_anc_S in B.
-        destruct (nth_anc (idel (key aL) (idx s)) (head s) (n - 1)) as [u|] eqn:U; [|discriminate].
-        pose proof (nth_anc_mono _ _ _ _ _ (idel_sub (key aL) (idx s)) U) as U'. rewrite M, EU' in U'. inversion U'; subst u.
+        destruct (nth_anc (idel (key aL) (idx s)) (head s) (n - 1)) as [u|] eqn:Uu; [|discriminate].
+        pose proof (nth_anc_mono _ _ _ _ _ (idel_sub (key aL) (idx s)) Uu) as Uu'. rewrite M, EU' in Uu'. inversion Uu'; subst u.
         unfold parent_of in B. change (to_hash (h_parent aU), sub64 (h_num aU) 1) with (pkey aU) in B. rewrite <- KU in B. unfold idel in B. rewrite iget_idel, hkey_eqb_refl in B. discriminate.
     - (* inv_head *) unfold Stored. unfold idel. rewrite iget_idel.
       destruct (hkey_eqb_spec (key (head s)) (key aL)) as [K|_]; [|exact (inv_head _ _ _ I)].
@@ -321,9 +323,10 @@ Section Inv.
       + exfalso. assert (h_num a = h_num aL) by (inversion K; reflexivity). lia.
       + apply (inv_rmain _ _ _ I a Sa'). rewrite LowL. lia.
     - (* inv_low *) intros a Sa. apply (inv_low _ _ _ I). exact (idel_sub _ _ _ _ Sa).
+    - (* inv_univ *) intros a Sa. apply (inv_univ _ _ _ I). exact (idel_sub _ _ _ _ Sa).
     - (* inv_dead *) rewrite LastL1. cbn [DeadPath]. split; [exact KU|].
       split; [unfold idel; rewrite iget_idel, KU, hkey_eqb_refl; reflexivity|].
-      split; [exact HaL|].
+      split; [split; [exact HaL | exact (inv_univ _ _ _ I aL SL)]|].
       apply (deadpath_mono (idx s)); [intros k' N; apply idel_none; exact N|].
       exact (inv_dead _ _ _ I).
   Qed.
